@@ -76,6 +76,25 @@ def spec_wait(tier):
         trace_timeout=1500)
 
 
+def spec_wg(tier):
+    srcs = ["d", "a", "c", "S", "da", "dc"]
+    wts = ["w", "t", "i", "s", "o"]
+    grid = [{"src": s, "wts": w} for s in srcs for w in wts]
+    grid += [{"src": s, "wts": w} for s in ("d", "a", "S") for w in ("wi", "tw", "ws", "io")]
+    if tier != "quick":
+        grid += [{"src": s, "wts": w} for s in ("c", "da", "ac") for w in ("wi", "tw", "ws", "io", "ww", "ts")]
+    rand = [{"src": "dac", "wts": "wis"}, {"src": "ca", "wts": "wti"}, {"src": "dd", "wts": "iso"}, {"src": "S", "wts": "tis"}]
+    mc = [("WaitGroup_MC.cfg", 8, 900, "WaitGroup: sources {d,a,c,S,da} x waiters {w,t,i,s,o,wi,tw,ws}, all interleavings")]
+    if tier != "quick":
+        mc.append(("WaitGroup_MC3.cfg", 12, 3000, "WaitGroup: up to 3 sources / 2 waiters incl. two coroutines and timed + coroutine"))
+    return ConcSpec(
+        name="WaitGroup", scenario="wg", grid=grid, inv_props={}, primary="C16",
+        mc_cfgs=mc, paths_cfg=None,
+        dfs_max=1200 if tier == "quick" else 8000, preempt=2 if tier == "quick" else 3,
+        rand_execs=150 if tier == "quick" else 2500, rand_grid=rand,
+        scen_keys=["src", "wts"], trace_timeout=1500)
+
+
 ALL_STRATS = ["all_none", "all_ff", "join_none", "join_ff"]
 ANY_STRATS = ["any_none", "any_ff", "any_lf"]
 
@@ -170,6 +189,15 @@ def c11(rep, tier, seed):
     run_conc(rep, spec_wait(tier), tier, seed, {"C11"})
     rep.assumptions += ["virtual deadline fired by the controller at any scheduling point while the waiter sleeps; "
                         "n = 1, 2: all schedules with at most 2 preemptions on the code; n = 3: seeded random schedules; n <= 2 exhaustively in the model"]
+
+
+@check("C16")
+def c16(rep, tier, seed):
+    """WaitGroup / OneShotEvent release every waiter exactly when the count hits zero (WaitGroup.tla)"""
+    run_conc(rep, spec_wg(tier), tier, seed, {"C16"})
+    rep.assumptions += ["sources: Done by a thread, attached / consumed futures, a bare event Set; waiters: Wait, WaitFor (+Wait "
+                        "after a timeout), co_await inline / sticky / on an executor; at most one timed waiter per scenario; "
+                        "Add only inside Attach / Consume while M holds its own unit (the documented usage rule); no Reset"]
 
 
 @check("C09")
